@@ -133,6 +133,49 @@ def explicit(case):
     return q, True
 
 
+def expected_rets(case):
+    """The values the calls hand back according to the abstract history (mirrors TrackedRetS.expected_rets; used for
+    the signature of a failure only - the monitor computes them in Coq)."""
+    st = Abs(case["tys"], case["track"])
+    out = []
+    for c in case["prog"]:
+        k = c[0]
+        if k == "track_wire":
+            out.append(["idx", len(st.table)])
+            st.track(c[1])
+        elif k in ("track_wires", "track_inputs"):
+            ws = c[1] if k == "track_wires" else [(0, i) for i in range(len(st.tys))]
+            out.append(["idxs", list(range(len(st.table), len(st.table) + len(ws)))])
+            for w in ws:
+                st.track(w)
+        elif k == "untrack":
+            w = st.denotes(c[1])
+            if w is None:
+                break
+            out.append(["wire", list(w)])
+            st.table[c[1]] = None
+        elif k == "add":
+            ws = st.resolve(c[3])
+            if ws is None:
+                break
+            out.append(["node", st.added(c[1], c[3], ws)])
+        elif k == "extend":
+            ns = []
+            for spec, args in c[1]:
+                ws = st.resolve(args)
+                if ws is None:
+                    return out
+                ns.append(st.added(spec, args, ws))
+            out.append(["nodes", ns])
+        elif k == "set_indexed_outputs":
+            if st.resolve(c[1]) is None:
+                break
+            out.append(["none"])
+        else:
+            out.append(["none"])
+    return out
+
+
 # ------------------------------------------------------------------ running the real builders
 
 def mk_type(t):
@@ -207,6 +250,8 @@ class Runner:
         self.replay = replay  # second builder: hand out the objects of the first run, position by position
         self.kc = 0
         self.km = 0
+        self.rets = []        # (kind, raw value) of every call that returned, in program order
+        self.ki = 0           # track_wires calls so far (the form of the one-shot iterator varies with it)
 
     def wire(self, w):
         from hugr.hugr.node_port import Node
@@ -275,9 +320,59 @@ class Runner:
         P.given.append(m)
         return m
 
-    def wires_arg(self, ws):
-        ws = [self.wire(w) for w in ws]
-        return iter(ws) if "iter" in self.pool.alias else ws
+    def wires_arg(self, names):
+        """The `wires: Iterable[Wire]` argument of track_wires.  Without the `iter` flag a list; with it a ONE-SHOT
+        iterator (can be walked once), in the forms callers really write: `node.outputs()` / `iter(node)` when the
+        wires are all the outputs of one added node in order, a node slice `node[a:b]` when they are consecutive
+        outputs of one node, otherwise a generator expression or iter(list), alternating."""
+        ws = [self.wire(w) for w in names]
+        if "iter" not in self.pool.alias:
+            return ws
+        self.ki += 1
+        if names and all(w[0] == names[0][0] for w in names) and 2 <= names[0][0] < 2 + len(self.handles) \
+                and [w[1] for w in names] == list(range(names[0][1], names[0][1] + len(names))):
+            n = self.handles[names[0][0] - 2]
+            a, b = names[0][1], names[0][1] + len(names)
+            want = [(x.out_port().node.idx, x.out_port().offset) for x in ws]
+
+            def same(it):
+                # the public Node API must give exactly these wires (otherwise it is not the call the case describes)
+                try:
+                    return [(x.node.idx, x.offset) for x in it] == want
+                except Exception:
+                    return False
+            if a == 0 and same(n.outputs()):
+                return n.outputs() if self.ki % 2 else iter(n)
+            if same(n[a:b]):
+                return n[a:b]
+        return (w for w in ws) if self.ki % 2 else iter(ws)
+
+    def canon_ret(self, kind, v, names):
+        """A returned value as the property can speak about it (indices, node / wire names); None = of another shape."""
+        def isint(x):
+            return isinstance(x, int) and not isinstance(x, bool)
+
+        def node(x):
+            return names.get(x.idx, 99999) if hasattr(x, "idx") and isint(x.idx) else None
+        try:
+            if kind == "none":
+                return ["none"] if v is None else None
+            if kind == "idx":
+                return ["idx", v] if isint(v) else None
+            if kind == "idxs":
+                return ["idxs", list(v)] if isinstance(v, (list, tuple)) and all(isint(x) for x in v) else None
+            if kind == "wire":
+                p = v.out_port()
+                return ["wire", [names.get(p.node.idx, 99999), p.offset]] if isint(p.offset) and p.offset >= 0 else None
+            if kind == "node":
+                n = node(v)
+                return None if n is None else ["node", n]
+            if kind == "nodes":
+                ns = [node(x) for x in v] if isinstance(v, (list, tuple)) else [None]
+                return None if any(n is None for n in ns) else ["nodes", ns]
+        except Exception:
+            return None
+        raise AssertionError(kind)
 
     def observe(self, res, tracked):
         from hugr.hugr.node_port import Node
@@ -321,13 +416,22 @@ class Runner:
         tr = None
         if tracked:
             tr = []
-            for w in d.tracked:
+            for i, w in enumerate(d.tracked):
                 if w is None:
                     tr.append(None)
                 else:
                     p = w.out_port()
                     tr.append([names.get(p.node.idx, 99999), p.offset])
-        return {"io": io, "nodes": onodes, "links": sorted(links), "tracked": tr, "res": res, "extra": extra}
+                # the public reader of one index agrees with the list: the wire, or IndexError for a hole
+                try:
+                    got = d.tracked_wire(i)
+                except IndexError:
+                    got = None
+                if (got is None) != (w is None) or (w is not None and got != w):
+                    extra += 1
+        rets = [self.canon_ret(k, v, names) for k, v in self.rets]
+        return {"io": io, "nodes": onodes, "links": sorted(links), "tracked": tr, "res": res, "extra": extra,
+                "rets": rets}
 
 
 def run_tracked(case, I, pool=None, replay=False):
@@ -338,24 +442,28 @@ def run_tracked(case, I, pool=None, replay=False):
     try:
         for c in case["prog"]:
             k = c[0]
+            # every value a call hands back is kept: the indices returned by track_wire(s) / track_inputs ARE the
+            # integers later commands use
             if k == "track_wire":
-                d.track_wire(r.wire(c[1]))
+                r.rets.append(("idx", d.track_wire(r.wire(c[1]))))
             elif k == "track_wires":
-                d.track_wires(r.wires_arg(c[1]))
+                r.rets.append(("idxs", d.track_wires(r.wires_arg(c[1]))))
             elif k == "track_inputs":
-                d.track_inputs()
+                r.rets.append(("idxs", d.track_inputs()))
             elif k == "untrack":
-                d.untrack_wire(c[1])
+                r.rets.append(("wire", d.untrack_wire(c[1])))
             elif k == "add":
                 n = d.add(r.com(c[1], c[3]), metadata=r.meta(c[2]))
                 r.handles.append(n)
+                r.rets.append(("node", n))
             elif k == "extend":
                 ns = d.extend(*[r.com(spec, args) for spec, args in c[1]])
                 r.handles.extend(ns)
+                r.rets.append(("nodes", ns))
             elif k == "set_indexed_outputs":
-                d.set_indexed_outputs(*[r.arg(a) for a in c[1]])
+                r.rets.append(("none", d.set_indexed_outputs(*[r.arg(a) for a in c[1]])))
             elif k == "set_tracked_outputs":
-                d.set_tracked_outputs()
+                r.rets.append(("none", d.set_tracked_outputs()))
             else:
                 raise AssertionError(k)
     except Exception as e:
@@ -434,7 +542,24 @@ class Lit:
                     glist(gpair(gwire(s), gpair(gN(d[0]), gN(d[1]))) for s, d in o["links"]),
                     glist(gopt(None if w is None else gwire(w)) for w in (o["tracked"] or [])),
                     "ROk" if o["res"] == "ok" else ERRS.get(o["res"], "ROther"),
-                    gN(o["extra"]))
+                    gN(o["extra"]),
+                    glist(gopt(None if r is None else self.ret(r)) for r in o.get("rets") or []))
+
+    def ret(self, r):
+        k = r[0]
+        if k == "none":
+            return "RNone"
+        if k == "idx":
+            return gapp("RIdx", gZ(r[1]))
+        if k == "idxs":
+            return gapp("RIdxs", glist(gZ(i) for i in r[1]))
+        if k == "wire":
+            return gapp("RWire", gwire(r[1]))
+        if k == "node":
+            return gapp("RNode", gN(r[1]))
+        if k == "nodes":
+            return gapp("RNodes", glist(gN(n) for n in r[1]))
+        raise AssertionError(k)
 
 
 
@@ -528,10 +653,11 @@ def rand_meta(rng):
     return m
 
 
-def rand_prog(rng, width=None, malformed=False, length=None, reuse=0.0):
+def rand_prog(rng, width=None, malformed=False, length=None, reuse=0.0, outs=0.0):
     """reuse > 0: earlier commands come back (same operation and same arguments, or the same operation
-    with new arguments) — with case["alias"] these are the same Python objects.  No extra draw is made
-    from rng when reuse == 0, so the streams of the other generators are what they were."""
+    with new arguments) — with case["alias"] these are the same Python objects.  outs > 0: track_wires of
+    consecutive outputs of one node (what callers pass as `node.outputs()` / `node[a:b]`).  No extra draw is
+    made from rng when reuse == 0 and outs == 0, so the streams of the other generators are what they were."""
     width = rng.randint(1, 8) if width is None else width
     tys = [rng.choice(["Q", "Q", "B", "U"]) for _ in range(width)]
     track = rng.random() < 0.6
@@ -646,6 +772,21 @@ def rand_prog(rng, width=None, malformed=False, length=None, reuse=0.0):
                 return ["noop"], pick_args(1)
         return pick_op(bad)
 
+    def node_outputs():
+        # outs > 0: track_wires of consecutive outputs of ONE node (all of them: `node.outputs()`, or a slice
+        # `node[a:b]`) - what a caller passes as a one-shot iterator.  No draw from rng when outs == 0.
+        cands = [n for n, k in st.nout.items() if n != 1 and k >= 1]
+        if not cands:
+            return None
+        n = rng.choice(cands[-3:] if rng.random() < 0.7 else cands)
+        k = st.nout[n]
+        if rng.random() < 0.6:
+            a, b = 0, k
+        else:
+            a = rng.randrange(k)
+            b = rng.randint(a, k)
+        return [[n, j] for j in range(a, b)]
+
     alive = True
     for ci in range(n_cmds):
         bad = ci == bad_at
@@ -679,12 +820,14 @@ def rand_prog(rng, width=None, malformed=False, length=None, reuse=0.0):
                     alive = apply_add(spec, args)
             limit[0] = None
             prog.append(["extend", coms])
-        elif r < 0.68:
+        elif r < 0.68 and not (outs and rng.random() < outs):
             w = pick_wire()
             prog.append(["track_wire", w])
             st.track(w)
         elif r < 0.73:
-            ws = [pick_wire() for _ in range(rng.randint(0, 3))]
+            ws = node_outputs() if outs and rng.random() < 0.85 else None
+            if ws is None:
+                ws = [pick_wire() for _ in range(rng.randint(0, 3))]
             prog.append(["track_wires", ws])
             for w in ws:
                 st.track(w)
@@ -768,7 +911,11 @@ class C15(fw.Prop):
             "them are ONE Python object (Command, operation, incoming list, metadata dict), whether "
             "track_wires gets a one-shot iterator, and whether the same objects are then handed to a second "
             "TrackedDfg (Case2: both observations are monitored); 40% of the other streams get alias flags "
-            "too.  non-trivial = an "
+            "too.  Returned values: what every call hands back (track_wire -> index, track_wires / track_inputs "
+            "-> index list, untrack_wire -> wire, add -> node, extend -> nodes, set_* -> None) is observed and "
+            "compared with the abstract history; a stream of 150 / 1500 programs tracks consecutive outputs of one "
+            "node and passes them as node.outputs() / iter(node) / node[a:b] / a generator (flag iter).  "
+            "non-trivial = an "
             "integer argument is used after an earlier add rebound it, or a hole exists, or metadata is given, "
             "or the run ends in an exception.  Second pass (extra): 150 / 1500 tracked-builder programs of C01's "
             "generator (harness/progs.py gen_tracked_program) run on the real TrackedDfg; those without load are "
@@ -779,6 +926,8 @@ class C15(fw.Prop):
                "metadata values through json.dumps",
                "the plain-builder model (wire_up_port) is shared by both sides of the simulation theorem; it is "
                "tied to Dfg.add/set_outputs by the correspondence on the explicit programs",
+               "returned values are canonicalised by the harness: int -> index, list/tuple of int -> index list, "
+               "Wire -> (node name, offset), Node -> node name; any other shape is 'unrecognised' and fails",
                "object reuse (case['alias']) is realised by the harness: the plain builder gets its own objects "
                "with the tracked side's operation-sharing pattern; partial operations are not shared in programs "
                "with an UnpackTuple command"]
@@ -838,6 +987,18 @@ class C15(fw.Prop):
                       ["set_indexed_outputs", [2, 1, [2, 1], 0, 2]]]},
             {"tys": ["Q", "B"], "track": False, "alias": ["iter", "again"],
              "prog": [["track_wires", [[0, 1], [0, 0]]], ["add", c, None, [1]], ["track_wires", []], ["set_tracked_outputs"]]},
+            # seeded C15-i: track_wires walks a one-shot iterator twice - the wires are stored, the returned index
+            # list is empty.  Minimal: one wire from a generator ...
+            {"tys": ["Q"], "track": False, "alias": ["iter"], "prog": [["track_wires", [[0, 0]]]]},
+            # ... track_wires(node.outputs()) after a hole, the returned indices then used by add / outputs ...
+            {"tys": ["B", "Q"], "track": True, "alias": ["iter"],
+             "prog": [["untrack", 1], ["add", ["custom", 1, 2, "m"], None, [[0, 1]]], ["track_wires", [[2, 0], [2, 1]]],
+                      ["add", c, {"k": 1}, [3]], ["add", c, None, [2]], ["set_tracked_outputs"]]},
+            # ... a node slice node[1:3], and track_inputs / track_wire / untrack_wire / extend return values
+            {"tys": ["Q", "Q"], "track": False, "alias": ["iter"],
+             "prog": [["add", ["custom", 2, 3, "cx"], None, [[0, 0], [0, 1]]], ["track_wires", [[2, 1], [2, 2]]],
+                      ["track_inputs"], ["track_wire", [2, 0]], ["untrack", 2], ["extend", [[c, [0]], [c, [4]]]],
+                      ["track_wires", [[2, 1], [2, 2]]], ["set_indexed_outputs", [0, 1, 4, 5, 6]]]},
         ]
 
     def generate(self, rng, tier, ctx):
@@ -859,6 +1020,14 @@ class C15(fw.Prop):
             c = rand_prog(rng, reuse=rng.choice([0.3, 0.5, 0.8]), malformed=(i % 8 == 7),
                           width=rng.choice([None, 1, 2, 3]))
             c["alias"] = rand_alias(rng)
+            cases.append(c)
+        # Iterable-typed arguments given as one-shot iterators: track_wires(node.outputs()), track_wires(node[a:b]),
+        # generators; the indices it returns are observed (obs["rets"]) and are what the later commands use
+        for i in range(150 * k):
+            c = rand_prog(rng, outs=rng.choice([0.5, 0.8]), reuse=rng.choice([0.0, 0.0, 0.4]), malformed=(i % 10 == 9),
+                          width=rng.choice([None, 1, 2, 3]))
+            c["alias"] = sorted(set((rand_alias(rng) if rng.random() < 0.5 else []) + (["iter"] if i % 5 else [])),
+                                key=ALIAS_FLAGS.index)
             cases.append(c)
         return cases
 
@@ -916,6 +1085,9 @@ class C15(fw.Prop):
             return "tracked:links-differ"
         if obs.get("t2") is not None and obs["t2"] != t:
             return "tracked:second-builder-differs"
+        if t.get("rets") != expected_rets(case)[:len(t.get("rets") or [])] or \
+                (t["res"] == "ok" and len(t.get("rets") or []) != len(case["prog"])):
+            return "tracked:returned-values-differ"
         return "tracked:graph-differs"
 
     def shrink(self, case):
@@ -934,6 +1106,9 @@ class C15(fw.Prop):
                 for j in range(len(c[3])):
                     yield {**case, "prog": prog[:i] + [[c[0], c[1], c[2], c[3][:j] + c[3][j + 1:]]] + prog[i + 1:]}
             if c[0] == "extend":
+                for j in range(len(c[1])):
+                    yield {**case, "prog": prog[:i] + [[c[0], c[1][:j] + c[1][j + 1:]]] + prog[i + 1:]}
+            if c[0] == "track_wires" and len(c[1]) > 1:
                 for j in range(len(c[1])):
                     yield {**case, "prog": prog[:i] + [[c[0], c[1][:j] + c[1][j + 1:]]] + prog[i + 1:]}
         if len(case["tys"]) > 1:
